@@ -12,7 +12,7 @@ m = {
                  "kind_free_text": "Lean 4 theorems about an executable model (lean/PeptVerif), tied to /repo by table translation and by differential correspondence through compiled drivers; failing-input search on the implementation"}],
     "checks": [],
     "not_applicable": NOT_APPLICABLE,
-    "notes": "see DESIGN.md; ./check Cxx --tier quick|thorough; known findings in known_findings.json",
+    "notes": "see DESIGN.md (section 9 = as built); ./check Cxx --tier quick|thorough [--replay FILE]; known findings in known_findings.json; seeded breaking changes in seeded/ (run_seeded.py), behaviour-preserving refactors in harmless/ (run_harmless.py); clean setup about 21 min on 16 cores, quick tier 9-65 s per property once built",
 }
 for c in CHECKS:
     m["checks"].append({
